@@ -200,6 +200,8 @@ pub fn gen_model(rng: &mut StdRng, o: &GenOpts) -> (MModel, Vec<char>) {
             });
         }
     }
+    // the order of tag models in the file must not matter
+    tags.shuffle(rng);
     (
         MModel {
             cng,
@@ -241,9 +243,12 @@ pub fn record_predict(kind: &str, n_models: usize, seed: u64, out: &mut dyn Writ
             }
         };
         let mut s = Sentence::default();
-        for _ in 0..3 {
+        // recurring lengths: a reused sentence often sees a new text of exactly the previous length
+        let lens = [rng.gen_range(1..=24usize), rng.gen_range(2..=8usize)];
+        for round in 0..(if with_tags { 6 } else { 3 }) {
             let text = loop {
-                let t = rand_text(&mut rng, &alpha, 1, 24);
+                let l = if round % 3 == 2 { rng.gen_range(1..=24) } else { lens[rng.gen_range(0..2)] };
+                let t = rand_text(&mut rng, &alpha, l, l);
                 if !t.contains('\0') {
                     break t;
                 }
@@ -311,3 +316,305 @@ pub fn record_predict(kind: &str, n_models: usize, seed: u64, out: &mut dyn Writ
 
 #[allow(dead_code)]
 pub fn unused(_: &Predictor) {}
+
+/// record sentences <n> <seed> <out>: random sentences (built without the parsers) written by both
+/// writers and re-read by the real readers; events `roundtok` (sentences without unknown labels) and
+/// `roundpart` for Trace_Writers.
+pub fn record_sentences(n: usize, seed: u64, out: &mut dyn Write) {
+    let mut rng = StdRng::seed_from_u64(seed);
+    let extra: Vec<char> = vec!['\t', '\u{3000}', '\u{a0}', '|', '_', ':', ',', '"', '\'', '\r', '\u{2028}', '\u{85}', '\u{b}', '\u{c}', '\u{1680}', '\u{feff}'];
+    let mut pool: Vec<char> = POOL.to_vec();
+    pool.extend_from_slice(&extra);
+    for id in 0..n {
+        let na = rng.gen_range(2..=6);
+        let alpha: Vec<char> = pool.choose_multiple(&mut rng, na).cloned().collect();
+        let text = rand_text(&mut rng, &alpha, 1, 8);
+        let nchars = text.chars().count();
+        let with_u = id % 2 == 1;
+        let bnd: Vec<u8> = (0..nchars - 1)
+            .map(|_| if with_u { rng.gen_range(0..3) } else { rng.gen_range(0..2) })
+            .collect();
+        let ntags = rng.gen_range(0..=3usize);
+        let mut rows = vec![];
+        for _ in 0..nchars {
+            let mut row = vec![];
+            for _ in 0..ntags {
+                if rng.gen_bool(0.5) {
+                    row.push(json!([]));
+                } else {
+                    let t = rand_text(&mut rng, &pool, 1, 4);
+                    row.push(str_to_cps(&t));
+                }
+            }
+            rows.push(Value::Array(row));
+        }
+        let sent = json!({"text": str_to_cps(&text), "bnd": bnd, "ntags": ntags, "tags": rows});
+        let r = catch_unwind(AssertUnwindSafe(|| {
+            let s = build_sentence(&sent);
+            proj(&s, &ProjOpts { writers: true, reparse: true, cands: false })
+        }));
+        let p = match r {
+            Ok(p) if p.is_object() => p,
+            _ => {
+                writeln!(out, "{}", json!({"id": id, "ev": "panic", "sent": sent})).unwrap();
+                continue;
+            }
+        };
+        if !with_u {
+            if p["wtok"].is_array() && p["rtok"].is_object() {
+                writeln!(out, "{}", json!({"id": id * 2, "ev": "roundtok", "sent": sent, "wtok": p["wtok"], "wtok_utf8": p["wtok_utf8"], "rtok": p["rtok"]})).unwrap();
+            } else {
+                writeln!(out, "{}", json!({"id": id * 2, "ev": "panic", "what": "tokenized writer/reader", "sent": sent})).unwrap();
+            }
+        }
+        if p["wpart"].is_array() && p["rpart"].is_object() {
+            writeln!(out, "{}", json!({"id": id * 2 + 1, "ev": "roundpart", "sent": sent, "wpart": p["wpart"], "wpart_utf8": p["wpart_utf8"], "rpart": p["rpart"]})).unwrap();
+        } else {
+            writeln!(out, "{}", json!({"id": id * 2 + 1, "ev": "panic", "what": "partial writer/reader", "sent": sent})).unwrap();
+        }
+    }
+}
+
+fn esc(s: &str, specials: &[char]) -> String {
+    let mut o = String::new();
+    for c in s.chars() {
+        if specials.contains(&c) {
+            o.push('\\');
+        }
+        o.push(c);
+    }
+    o
+}
+
+fn obs_of(s: &Sentence) -> Value {
+    let st = proj_state(s);
+    let toks = proj_tokens(s, false);
+    let ok = st["tags"].is_array() && toks.is_array() && st["scores"].is_array()
+        && toks.as_array().map(|a| a.iter().all(|t| t.is_object() && t["surf"].is_array() && t["tags"].is_array())).unwrap_or(false);
+    if ok {
+        json!({"sane": true, "text": st["text"], "types": st["types"], "bnd": st["bnd"], "ntags": st["ntags"],
+               "tags": st["tags"], "scores": st["scores"], "tokens": toks})
+    } else {
+        json!({"sane": false, "text": st["text"], "types": st["types"], "bnd": st["bnd"], "ntags": st["ntags"],
+               "tags": [], "scores": [], "tokens": [], "raw": {"state": st, "tokens": toks}})
+    }
+}
+
+/// record histories <n_histories> <seed> <out>: random call histories on ONE sentence object over random
+/// predictors; every call is logged with the observable state after it (Trace_Lifecycle validates).
+pub fn record_histories(n: usize, seed: u64, out: &mut dyn Write) {
+    let mut rng = StdRng::seed_from_u64(seed);
+    let mut id = 0u64;
+    for _ in 0..n {
+        // predictors over one alphabet
+        let (m1, alpha) = gen_model(&mut rng, &GenOpts { with_tags: true, max_w: 4 });
+        let mut models = vec![m1.clone()];
+        for _ in 0..2 {
+            // further models over the same alphabet: regenerate until the alphabets agree (cheap: reuse base entries)
+            let wt = rng.gen_bool(0.7);
+            let (mut m, _) = gen_model(&mut rng, &GenOpts { with_tags: wt, max_w: 4 });
+            // re-target the entries to the shared alphabet by keeping windows/bias but borrowing n-grams
+            m.cng = m1.cng.iter().cloned().filter(|_| rng.gen_bool(0.6)).collect();
+            for e in m.cng.iter_mut() {
+                let l = e.ngram.chars().count();
+                e.weights = (0..(2 * m.cw as usize + 1).saturating_sub(l)).map(|_| rand_weight(&mut rng)).collect();
+            }
+            m.cng.retain(|e| !e.weights.is_empty() && e.ngram.chars().count() <= 2 * m.cw as usize);
+            m.tng = m1.tng.iter().cloned().filter(|_| rng.gen_bool(0.6)).collect();
+            for e in m.tng.iter_mut() {
+                e.weights = (0..(2 * m.tw as usize + 1).saturating_sub(e.ngram.len())).map(|_| rand_weight(&mut rng)).collect();
+            }
+            m.tng.retain(|e| !e.weights.is_empty() && e.ngram.len() <= 2 * m.tw as usize);
+            m.dict = m1.dict.iter().cloned().filter(|_| rng.gen_bool(0.5)).collect();
+            if !m.tags.is_empty() {
+                // tag models over the shared alphabet: take m1's, with rel clipped to the new windows
+                m.tags = m1.tags.clone();
+                for t in m.tags.iter_mut() {
+                    for e in t.cng.iter_mut() {
+                        e.weights.retain(|w| w.rel <= m.cw);
+                    }
+                    t.cng.retain(|e| !e.weights.is_empty());
+                    for e in t.tng.iter_mut() {
+                        e.weights.retain(|w| w.rel <= m.tw);
+                    }
+                    t.tng.retain(|e| !e.weights.is_empty());
+                }
+            }
+            models.push(m);
+        }
+        let mut pspecs = vec![];
+        for (i, m) in models.iter().enumerate() {
+            let has_tags = !m.tags.is_empty() || i == 0;
+            pspecs.push(json!({"model": mmodel_to_json(m), "tags": has_tags, "store": i == 0}));
+        }
+        // the first model twice: once storing scores, once not
+        pspecs.push(json!({"model": mmodel_to_json(&models[0]), "tags": true, "store": false}));
+        let mut preds = vec![];
+        let mut okp = true;
+        for p in &pspecs {
+            match predictor_from_json(p) {
+                Ok(x) => preds.push(x),
+                Err(e) => {
+                    writeln!(out, "{}", json!({"id": id, "ev": "newpred", "res": e, "pred": p})).unwrap();
+                    id += 1;
+                    okp = false;
+                    break;
+                }
+            }
+        }
+        if !okp {
+            continue;
+        }
+        writeln!(out, "{}", json!({"id": id, "ev": "hist_init", "preds": pspecs})).unwrap();
+        id += 1;
+        let mut s = Sentence::default();
+        let lens = [rng.gen_range(1..=6usize), rng.gen_range(1..=6usize)];
+        let tagpool = ["X", "Y", "名", "a b", "p/q"];
+        let nops = rng.gen_range(12..=30);
+        for _ in 0..nops {
+            let len = if rng.gen_bool(0.7) { lens[rng.gen_range(0..2)] } else { rng.gen_range(1..=8) };
+            let op: Value = match rng.gen_range(0..100) {
+                0..=24 => {
+                    let t = if rng.gen_bool(0.06) { String::new() } else { rand_text(&mut rng, &alpha, len, len) };
+                    json!({"op": "up_raw", "s": str_to_cps(&t)})
+                }
+                25..=34 => {
+                    // a tokenized line: tokens with optional tags, specials escaped as documented
+                    let t = rand_text(&mut rng, &alpha, len, len);
+                    let cs: Vec<char> = t.chars().collect();
+                    let mut line = String::new();
+                    let nt = rng.gen_range(0..=2);
+                    for (i, c) in cs.iter().enumerate() {
+                        line.push_str(&esc(&c.to_string(), &[' ', '/', '\\']));
+                        let last = i + 1 == cs.len();
+                        if last || rng.gen_bool(0.4) {
+                            for _ in 0..nt {
+                                line.push('/');
+                                if rng.gen_bool(0.7) {
+                                    line.push_str(&esc(tagpool[rng.gen_range(0..tagpool.len())], &[' ', '/', '\\']));
+                                }
+                            }
+                            if !last {
+                                line.push(' ');
+                            }
+                        }
+                    }
+                    if rng.gen_bool(0.08) {
+                        line.push(' ');
+                    }
+                    json!({"op": "up_tok", "s": str_to_cps(&line)})
+                }
+                35..=42 => {
+                    let t = rand_text(&mut rng, &alpha, len, len);
+                    let cs: Vec<char> = t.chars().collect();
+                    let mut line = String::new();
+                    let nt = rng.gen_range(0..=2);
+                    for (i, c) in cs.iter().enumerate() {
+                        line.push(*c);
+                        if rng.gen_bool(0.5) {
+                            for _ in 0..nt {
+                                line.push('/');
+                                if rng.gen_bool(0.7) {
+                                    line.push_str(&esc(tagpool[rng.gen_range(0..tagpool.len())], &[' ', '/', '\\', '-', '|']));
+                                }
+                            }
+                        }
+                        if i + 1 != cs.len() {
+                            line.push([' ', '-', '|'][rng.gen_range(0..3)]);
+                        }
+                    }
+                    if rng.gen_bool(0.08) {
+                        line.push('-');
+                    }
+                    json!({"op": "up_part", "s": str_to_cps(&line)})
+                }
+                43..=47 => json!({"op": "reset_tags", "k": rng.gen_range(0..=3)}),
+                48..=74 => json!({"op": "predict", "p": rng.gen_range(0..preds.len())}),
+                75..=86 => json!({"op": "fill_tags"}),
+                87..=92 => {
+                    let v: Vec<u8> = (0..8).map(|_| rng.gen_range(0..3)).collect();
+                    json!({"op": "set_bnd", "v": v})
+                }
+                _ => {
+                    let f = ["D", "R", "H", "T", "K", "O", "L"][rng.gen_range(0..7)];
+                    json!({"op": "filter", "f": f})
+                }
+            };
+            let name = op["op"].as_str().unwrap().to_string();
+            let text = cps_to_string(&op["s"]);
+            let r = catch_unwind(AssertUnwindSafe(|| match name.as_str() {
+                "up_raw" => if s.update_raw(text.clone()).is_ok() { "ok" } else { "err" },
+                "up_tok" => if s.update_tokenized(&text).is_ok() { "ok" } else { "err" },
+                "up_part" => if s.update_partial_annotation(&text).is_ok() { "ok" } else { "err" },
+                "reset_tags" => { s.reset_tags(op["k"].as_u64().unwrap() as usize); "ok" }
+                "predict" => { preds[op["p"].as_u64().unwrap() as usize].predict(&mut s); "ok" }
+                "fill_tags" => { s.fill_tags(); "ok" }
+                "set_bnd" => {
+                    for (d, x) in s.boundaries_mut().iter_mut().zip(op["v"].as_array().unwrap()) {
+                        *d = label_from(x.as_u64().unwrap());
+                    }
+                    "ok"
+                }
+                _ => { crate::ops::make_filter(op["f"].as_str().unwrap(), None).filter(&mut s); "ok" }
+            }));
+            let res = match r { Ok(x) => x, Err(_) => "panic" };
+            let obs = catch_unwind(AssertUnwindSafe(|| obs_of(&s))).unwrap_or(json!({"sane": false, "text": [], "types": [], "bnd": [], "ntags": 0, "tags": [], "scores": [], "tokens": []}));
+            writeln!(out, "{}", json!({"id": id, "ev": "op", "op": op, "res": res, "obs": obs})).unwrap();
+            id += 1;
+        }
+    }
+}
+
+
+/// record serde <n_models> <seed> <out>: for random models, the observations of the original predictor and of
+/// the predictor obtained from serialize_to_vec -> deserialize_from_slice_unchecked(bytes ++ trailing).
+pub fn record_serde(n_models: usize, seed: u64, out: &mut dyn Write) {
+    let mut rng = StdRng::seed_from_u64(seed);
+    for id in 0..n_models {
+        let with_tags = id % 3 != 0;
+        let (mm, alpha) = gen_model(&mut rng, &GenOpts { with_tags, max_w: 12 });
+        let mj = mmodel_to_json(&mm);
+        // predict_tags = true also for models without tag models
+        let tags = id % 2 == 0 || with_tags;
+        let trail: Vec<u8> = (0..rng.gen_range(0..6)).map(|_| rng.gen()).collect();
+        let a = predictor_from_json(&json!({"model": mj, "tags": tags, "store": tags}));
+        let b = predictor_from_json_rest(&json!({"model": mj, "tags": tags, "store": tags, "serde": true, "trail": trail}));
+        let (pa, pb, rest) = match (a, b) {
+            (Ok(pa), Ok((pb, rest))) => (pa, pb, rest),
+            (a, b) => {
+                writeln!(out, "{}", json!({"id": id, "ev": "serde", "ok": false, "a": [], "b": [], "rest": [-1], "trail": trail,
+                    "why": format!("{:?} / {:?}", a.err(), b.err().map(|e| e.to_string())), "model": mj})).unwrap();
+                continue;
+            }
+        };
+        let mut oa = vec![];
+        let mut ob = vec![];
+        let mut ok = true;
+        let mut sa = Sentence::default();
+        let mut sb = Sentence::default();
+        for _ in 0..4 {
+            let text = rand_text(&mut rng, &alpha, 1, 20);
+            for (p, s, o) in [(&pa, &mut sa, &mut oa), (&pb, &mut sb, &mut ob)] {
+                let r = catch_unwind(AssertUnwindSafe(|| {
+                    s.update_raw(text.clone()).unwrap();
+                    p.predict(s);
+                    if tags {
+                        s.fill_tags();
+                    }
+                    let st = proj_state(s);
+                    let tk = proj_tokens(s, tags && !mm.tags.is_empty() && mm.tags.iter().any(|t| !t.tags.is_empty()));
+                    json!({"scores": st["scores"], "bnd": st["bnd"], "ntags": st["ntags"], "tags": st["tags"], "tokens": tk})
+                }));
+                match r {
+                    Ok(v) => o.push(v),
+                    Err(_) => {
+                        ok = false;
+                        o.push(json!("panic"));
+                        *s = Sentence::default();
+                    }
+                }
+            }
+        }
+        writeln!(out, "{}", json!({"id": id, "ev": "serde", "ok": ok, "a": oa, "b": ob, "rest": rest, "trail": trail, "model": mj})).unwrap();
+    }
+}
